@@ -8,8 +8,12 @@ import Proofs.WF
 
 namespace Hive
 
-def stnStatic (st : Station) : Pos × Membership × List (ChargerId × Bool × Nat) :=
-  (st.pos, st.members, st.plugs.map fun c => (c.id, c.electric, c.total))
+/-- what never changes about a plug type during a step: identity, energy type, installed count,
+    rate, tariff (tariffs change only in the price-update phase) -/
+def plugStatic (c : ChargerState) : ChargerId × Bool × Nat × Rat × Rat := (c.id, c.electric, c.total, c.rate, c.price)
+
+def stnStatic (st : Station) : Pos × Membership × List (ChargerId × Bool × Nat × Rat × Rat) :=
+  (st.pos, st.members, st.plugs.map plugStatic)
 def baseStatic (b : Base) : Pos × Membership × Nat × Option StationId := (b.pos, b.members, b.total, b.station)
 def reqStatic (r : Request) : Pos × Pos × Time × Nat × Membership × Bool × Rat :=
   (r.pos, r.dest, r.departure, r.passengers, r.members, r.allowsPooling, r.value)
@@ -134,18 +138,18 @@ end Sim
 
 theorem Station.updatePlug_static {st st' : Station} {c : ChargerId} {op : ChargerState → Outcome ChargerState}
     (hn : (st.plugs.map ChargerState.id).Nodup)
-    (hop : ∀ cs cs', op cs = .ok cs' → cs'.id = cs.id ∧ cs'.electric = cs.electric ∧ cs'.total = cs.total)
+    (hop : ∀ cs cs', op cs = .ok cs' → plugStatic cs' = plugStatic cs)
     (h : st.updatePlug c op = .ok st') : st'.id = st.id ∧ stnStatic st' = stnStatic st := by
   rcases Station.updatePlug_ok h with ⟨_, rfl⟩ | ⟨cs, cs', hcs, hcs', rfl⟩
   · exact ⟨rfl, rfl⟩
   · refine ⟨rfl, ?_⟩
-    obtain ⟨e1, e2, e3⟩ := hop cs cs' hcs'
+    have hps := hop cs cs' hcs'
+    have e1 : cs'.id = cs.id := congrArg Prod.fst hps
     unfold stnStatic Station.setPlug
     simp only [Prod.mk.injEq, true_and]
     have hcs0 : lookup ChargerState.id st.plugs cs'.id = some cs := by
       rw [e1, (lookup_some hcs).2]; exact hcs
-    exact map_replaceById_congr (fun c : ChargerState => (c.id, c.electric, c.total)) hn hcs0
-      (by simp [e1, e2, e3])
+    exact map_replaceById_congr plugStatic hn hcs0 hps
 
 end Hive
 
@@ -153,26 +157,26 @@ namespace Hive
 variable {env : Env}
 
 theorem incAvail_static (cs cs' : ChargerState) (h : cs.incAvail = .ok cs') :
-    cs'.id = cs.id ∧ cs'.electric = cs.electric ∧ cs'.total = cs.total := by
+    plugStatic cs' = plugStatic cs := by
   unfold ChargerState.incAvail at h; split at h
   · cases h
-  · cases h; exact ⟨rfl, rfl, rfl⟩
+  · cases h; rfl
 
 theorem decAvail_static (cs cs' : ChargerState) (h : cs.decAvail = .ok cs') :
-    cs'.id = cs.id ∧ cs'.electric = cs.electric ∧ cs'.total = cs.total := by
+    plugStatic cs' = plugStatic cs := by
   unfold ChargerState.decAvail at h; split at h
   · cases h
-  · cases h; exact ⟨rfl, rfl, rfl⟩
+  · cases h; rfl
 
 theorem decEnq_static (cs cs' : ChargerState) (h : cs.decEnq = .ok cs') :
-    cs'.id = cs.id ∧ cs'.electric = cs.electric ∧ cs'.total = cs.total := by
+    plugStatic cs' = plugStatic cs := by
   unfold ChargerState.decEnq at h; split at h
   · cases h
-  · cases h; exact ⟨rfl, rfl, rfl⟩
+  · cases h; rfl
 
 theorem station_step_frame {v : VehicleId} {s s1 : Sim} {sid : StationId} {st st' : Station} {c : ChargerId}
     {op : ChargerState → Outcome ChargerState} (hwf : s.WF) (hst : s.station? sid = some st)
-    (hop : ∀ cs cs', op cs = .ok cs' → cs'.id = cs.id ∧ cs'.electric = cs.electric ∧ cs'.total = cs.total)
+    (hop : ∀ cs cs', op cs = .ok cs' → plugStatic cs' = plugStatic cs)
     (hup : st.updatePlug c op = .ok st') (hmod : s.modifyStation env st' = .ok s1) : Frame v s s1 := by
   obtain ⟨hid, hstat⟩ := Station.updatePlug_static (hwf.plugs st (station?_some hst).1) hop hup
   refine Sim.modifyStation_frame hmod ?_
@@ -194,7 +198,7 @@ theorem dequeue_frame {v : VehicleId} {s s1 : Sim} {sid : StationId} {st st' : S
 theorem enqueue_frame {v : VehicleId} {s s1 : Sim} {sid : StationId} {st st' : Station} {c : ChargerId}
     (hwf : s.WF) (hst : s.station? sid = some st) (hup : st.enqueue c = .ok st')
     (hmod : s.modifyStation env st' = .ok s1) : Frame v s s1 :=
-  station_step_frame hwf hst (by intro cs cs' h; cases h; exact ⟨rfl, rfl, rfl⟩) hup hmod
+  station_step_frame hwf hst (by intro cs cs' h; cases h; rfl) hup hmod
 
 theorem checkout_frame {v : VehicleId} {s s1 : Sim} {sid : StationId} {st st' : Station} {c : ChargerId}
     (hwf : s.WF) (hst : s.station? sid = some st) (hup : st.checkout c = .ok st')
